@@ -22,5 +22,35 @@ HInit == GInit /\ img = (0 :> <<>>)
 HNext == GNext /\ img' = NextImg(st, st')
 HSpec == HInit /\ [][HNext]_hvars
 
+-----------------------------------------------------------------------------
+(* Directed histories: a fixed prefix (DPrefix: create the file through handle 1 and   *)
+(* write recognisable bytes) followed by EVERY sequence of GenDepth handle-level calls  *)
+(* (open incl. truncating opens, seek, write, read, fstat, close; two handles).  The    *)
+(* history is part of the state here (no VIEW), so histories are not merged; each full  *)
+(* history is printed once with the predictions of Do for every step.                   *)
+DPrefix == <<[op |-> "open", p |-> <<"a">>, f |-> F("rw", TRUE, FALSE, FALSE, FALSE, FALSE)],
+             [op |-> "write", h |-> 1, d |-> <<2, 2>>]>>
+
+RECURSIVE ApplyAll(_, _, _)
+ApplyAll(S, H, cs) ==
+    IF cs = <<>> THEN [st |-> S, hist |-> H]
+    ELSE LET c == Head(cs)
+             r == CHOOSE x \in Do(S, c) : TRUE IN
+         ApplyAll(r.st, Append(H, Rec(S, c, r)), Tail(cs))
+
+DCalls(S) == {c \in OpenCalls(S) \cup FileCalls(S) :
+                 Legal(S, c) /\ \A r \in Do(S, c) : SizeOK(r.st) /\ PosOK(r.st) /\ DepthOK(r.st)}
+
+DInit == LET a == ApplyAll(InitState, <<>>, DPrefix) IN
+         /\ st = a.st /\ hist = a.hist /\ img = (0 :> <<>>)
+         /\ res = [call |-> [op |-> "init"], out |-> [r |-> "ok", why |-> "init"]]
+DNext == /\ Len(hist) < Len(DPrefix) + GenDepth
+         /\ UNCHANGED img
+         /\ \E c \in DCalls(st) : \E r \in Do(st, c) :
+               /\ st' = r.st /\ res' = [call |-> c, out |-> r.out]
+               /\ hist' = Append(hist, Rec(st, c, r))
+DSpec == DInit /\ [][DNext]_hvars
+EmitLeaf == Len(hist) < Len(DPrefix) + GenDepth \/ PrintT(<<"BEH", ToJson([pre |-> hist, edges |-> {}])>>)
+
 hview == <<Canon(st), [q \in DOMAIN st.ent |-> img[st.ent[q]]], [k \in DOMAIN st.h |-> img[st.h[k].node]]>>
 =============================================================================
